@@ -516,7 +516,8 @@ class FnTranslator:
         if g[0] == 'res' and self.cfg.get('res_ctors'):
             # a result type with several constant error constructors (config res_ctors): each is propagated
             arms = ' '.join('| %s => %s' % (c, ctx.exc(env, None) if ctx.exc else ctx.ret(c)) for c in self.cfg['res_ctors'])
-            return '(match %s with Ok %s => %s %s end)' % (g[2], g[1], self.wrap(guards[1:], env, ctx, k), arms)
+            return '(match %s with %s %s => %s %s end)' % (g[2], self.cfg.get('res_names', ('Ok', 'Err'))[0], g[1],
+                                                          self.wrap(guards[1:], env, ctx, k), arms)
         if g[0] == 'res':
             okc, errc = self.cfg.get('res_names', ('Ok', 'Err'))
             return '(match %s with %s err__ => %s | %s %s => %s end)' % (
